@@ -316,6 +316,16 @@ fn gen_sid(rng: &mut Rng) -> u64 {
     }
 }
 
+fn io_faults(ex: &mut Exec) {
+    let s = crate::simio::take_stats();
+    ex.fault("read_returns_pending", s.pendings);
+    ex.fault("read_pending_without_wakeup", s.pendings_without_wake);
+    ex.fault("short_read", s.short_reads);
+    ex.fault("source_ends_with_fin", s.ended_fin);
+    ex.fault("source_ends_with_reset", s.ended_reset);
+    ex.fault("source_ends_not_connected", s.ended_not_connected);
+}
+
 pub fn execute(p: &Plan, _trace: bool) -> Exec {
     let mut ex = Exec::new();
     let mut rng = Rng::new(p.seed, "c15-exec");
@@ -415,7 +425,10 @@ impl TypedScenario for C15Paths {
         Plan { seed, item, avail, end: rng.below(3) as u8, trailing: *rng.pick(&[0usize, 1, 9]) }
     }
     fn execute(&self, plan: &Plan, trace: bool) -> Exec {
-        execute(plan, trace)
+        let _ = crate::simio::take_stats();
+        let mut ex = execute(plan, trace);
+        io_faults(&mut ex);
+        ex
     }
     fn faulty(&self) -> bool {
         true
@@ -673,7 +686,10 @@ impl TypedScenario for C15Typestates {
         TsPlan { seed, role, items, cut }
     }
     fn execute(&self, plan: &TsPlan, trace: bool) -> Exec {
-        exec_ts(plan, trace)
+        let _ = crate::simio::take_stats();
+        let mut ex = exec_ts(plan, trace);
+        io_faults(&mut ex);
+        ex
     }
     fn shrink(&self, plan: &TsPlan) -> Vec<TsPlan> {
         let v = serde_json::to_value(plan).unwrap();
